@@ -2,6 +2,7 @@ package engine
 
 import (
 	"fmt"
+	"math"
 	"sort"
 	"strings"
 
@@ -18,6 +19,10 @@ type Outcome struct {
 	Panic string // non-empty if the call panicked
 	DVal  string // destination value after the call ("" if the op has no destination)
 	Hang  bool
+	// Self: a violation the operation can see by itself (an argument that is
+	// not a Decimal register — a *BigInt, a byte slice — was modified by the
+	// call). Differential oracles cannot see it because both executions do it.
+	Self string
 }
 
 func (o Outcome) String() string {
@@ -245,8 +250,18 @@ func init() {
 		return Outcome{Aux: s}
 	})
 	reg("NewWithBigInt", KDec2, false, false, true, func(a *Args) Outcome {
-		r := apd.NewWithBigInt(&a.X.Coeff, a.X.Exponent)
+		// the coefficient argument may be negative; it is an input and must not
+		// be modified
+		b := new(apd.BigInt).Set(&a.X.Coeff)
+		if a.X.Negative {
+			b.Neg(b)
+		}
+		before := b.String()
+		r := apd.NewWithBigInt(b, a.X.Exponent)
 		o := Outcome{Aux: DecVal(r)}
+		if after := b.String(); after != before {
+			o.Self = fmt.Sprintf("NewWithBigInt modified its coefficient argument: %s -> %s", before, after)
+		}
 		a.D.Set(r)
 		o.DVal = DecVal(a.D)
 		return o
@@ -308,7 +323,11 @@ func init() {
 		return Outcome{DVal: DecVal(a.D)}
 	})
 	reg("SetFloat64", KDecSet, false, false, true, func(a *Args) Outcome {
-		_, err := a.D.SetFloat64(float64(a.N) / 1024)
+		_, err := a.D.SetFloat64(floatArg(a.N))
+		if err != nil {
+			a.D.SetInt64(0)
+			a.D.Exponent = 0
+		}
 		return Outcome{Err: errText(err), DVal: DecVal(a.D)}
 	})
 	reg("DSetString", KDecSet, false, false, true, func(a *Args) Outcome {
@@ -337,7 +356,7 @@ func init() {
 		case 2:
 			src = a.N
 		default:
-			src = float64(a.N) / 8
+			src = floatArg(a.N)
 		}
 		err := a.D.Scan(src)
 		if err != nil {
@@ -360,7 +379,7 @@ func init() {
 		case 3:
 			src = a.N
 		case 4:
-			src = float64(a.N) / 8
+			src = floatArg(a.N)
 		default:
 			src = true // unsupported type
 		}
@@ -390,8 +409,12 @@ func init() {
 	reg("Compose", KDec2, false, false, true, func(a *Args) Outcome {
 		// round trip X through Decompose/Compose into D
 		form, neg, coeff, exp := a.X.Decompose(nil)
+		keep := append([]byte(nil), coeff...)
 		err := a.D.Compose(form, neg, coeff, exp)
 		o := Outcome{Err: errText(err)}
+		if string(keep) != string(coeff) {
+			o.Self = fmt.Sprintf("Compose modified the coefficient bytes it was given: %x -> %x", keep, coeff)
+		}
 		if form == 0 {
 			o.DVal = DecVal(a.D)
 		} else {
@@ -457,6 +480,27 @@ func init() {
 	}).CtxName = "Int64"
 
 	sort.Strings(OpNames)
+}
+
+// floatArg maps an integer argument to a float64, special values included.
+func floatArg(n int64) float64 {
+	switch uint64(n) % 16 {
+	case 0:
+		return math.NaN()
+	case 1:
+		return math.Inf(1)
+	case 2:
+		return math.Inf(-1)
+	case 3:
+		return math.Copysign(0, -1)
+	case 4:
+		return math.MaxFloat64
+	case 5:
+		return math.SmallestNonzeroFloat64
+	case 6:
+		return -math.Copysign(math.NaN(), -1)
+	}
+	return float64(n) / 1024
 }
 
 var fmtStrings = []string{"%v", "%s", "%e", "%E", "%f", "%F", "%g", "%G", "%12v", "%-14e|", "%+v", "% f", "%020g", "%d", "%+08f"}
